@@ -39,7 +39,12 @@ func generateAllPossibleMRTDs(uefi []byte, tdxRequest *EndorsementRequest) ([]*e
 	var result []*epb.VMTdx_Measurement
 	// Deprecated: To be removed.
 	for _, shape := range tdxRequest.MachineShapes {
-		options := LaunchOptionsDefaultTDHOBBug(shape)
+		// An unknown machine shape has no RAM bank layout to measure against.
+		banks, err := machineTypeToRAMBanks(shape)
+		if err != nil {
+			return nil, err
+		}
+		options := &LaunchOptions{GuestRAMBanks: banks, MeasureAllRegions: true}
 		meas, err := MRTD(options, uefi)
 		if err != nil {
 			return nil, err
